@@ -218,3 +218,90 @@ theorem consistent_unpack {E : EnumTable} (h : E.Consistent) :
 end EnumTable
 
 end Amgcl.Params
+
+/-! ### dotted paths: `put(path + name, v)` below an arbitrary prefix -/
+namespace Amgcl.Params
+namespace PTree
+
+theorem childPath?_cons (p : PTree) (k : String) (ks : List String) :
+    p.childPath? (k :: ks) = (lookup k p.kids).bind (fun c => c.childPath? ks) := by
+  simp only [childPath?, child?]
+  cases lookup k p.kids <;> rfl
+
+theorem childPath?_empty_ne_nil (path : List String) (h : path ≠ []) : empty.childPath? path = none := by
+  cases path with
+  | nil => exact absurd rfl h
+  | cons k ks => simp [childPath?_cons, empty, lookup]
+
+theorem getPath?_putPath_same (p : PTree) (path : List String) (v : String) :
+    (p.putPath path v).getPath? path = some v := by
+  induction path generalizing p with
+  | nil => simp [putPath, getPath?, childPath?]
+  | cons k ks ih =>
+    have := ih ((lookup k p.kids).getD empty)
+    simp only [getPath?] at this ⊢
+    simp only [putPath, childPath?_cons, kids_node, lookup_upsert_same, Option.bind_some]
+    exact this
+
+theorem getPath?_putPath_ne (p : PTree) (pre : List String) (n f v : String) (h : f ≠ n) :
+    (p.putPath (pre ++ [n]) v).getPath? (pre ++ [f]) = p.getPath? (pre ++ [f]) := by
+  induction pre generalizing p with
+  | nil =>
+    simp only [List.nil_append, getPath?, putPath, childPath?_cons, kids_node, lookup_upsert_ne _ _ _ _ h]
+  | cons k ks ih =>
+    simp only [List.cons_append, getPath?, putPath, childPath?_cons, kids_node, lookup_upsert_same, Option.bind_some]
+    have := ih ((lookup k p.kids).getD empty)
+    simp only [getPath?] at this
+    rw [this]
+    cases hl : lookup k p.kids with
+    | some c => simp
+    | none =>
+      simp only [Option.getD_none, Option.bind_none, Option.map_none]
+      rw [childPath?_empty_ne_nil _ (by simp)]
+      rfl
+
+end PTree
+
+namespace ParamTable
+
+theorem foldl_exportAt_not_mem (prm : Imported) (path : List String) (l : List (String × Via)) (acc : PTree)
+    (f : String) (h : f ∉ l.map (·.1)) :
+    (l.foldl (fun acc (e : String × Via) => match e.2 with
+        | Via.value => acc.putPath (path ++ [e.1]) ((prm.value? e.1).getD "default")
+        | Via.child => acc) acc).getPath? (path ++ [f]) = acc.getPath? (path ++ [f]) := by
+  induction l generalizing acc with
+  | nil => rfl
+  | cons e tl ih =>
+    simp only [List.map_cons, List.mem_cons, not_or] at h
+    simp only [List.foldl_cons]
+    rw [ih _ h.2]
+    obtain ⟨n, via⟩ := e
+    cases via with
+    | value => exact PTree.getPath?_putPath_ne _ _ _ _ _ h.1
+    | child => rfl
+
+theorem foldl_exportAt_mem (prm : Imported) (path : List String) (l : List (String × Via)) (acc : PTree)
+    (f v : String) (hv : prm.value? f = some v) (hmem : (f, Via.value) ∈ l) (hnd : (l.map (·.1)).Nodup) :
+    (l.foldl (fun acc (e : String × Via) => match e.2 with
+        | Via.value => acc.putPath (path ++ [e.1]) ((prm.value? e.1).getD "default")
+        | Via.child => acc) acc).getPath? (path ++ [f]) = some v := by
+  induction l generalizing acc with
+  | nil => cases hmem
+  | cons e tl ih =>
+    simp only [List.map_cons, List.nodup_cons] at hnd
+    simp only [List.foldl_cons]
+    cases hmem with
+    | head =>
+      rw [foldl_exportAt_not_mem prm path tl _ f hnd.1]
+      simp [hv, PTree.getPath?_putPath_same]
+    | tail _ h' => exact ih _ h' hnd.2
+
+theorem exportValuesAt_eq (t : ParamTable) (prm : Imported) (path : List String) (acc : PTree) :
+    t.exportValuesAt prm path acc = t.exports.foldl (fun acc (e : String × Via) => match e.2 with
+        | Via.value => acc.putPath (path ++ [e.1]) ((prm.value? e.1).getD "default")
+        | Via.child => acc) acc := by
+  unfold exportValuesAt
+  congr 1
+
+end ParamTable
+end Amgcl.Params
